@@ -3,7 +3,7 @@ import copy
 from .. import common, gen, mergecorr, oracles, t2, ser
 from . import base
 
-THEOREMS = ['C15_idempotent_last_plain', 'C15_empty_neutral_plain', 'C15_update_idempotent', 'C15_unsafe_marks_neutral_plain']
+THEOREMS = ['C15_idempotent_last_plain', 'C15_empty_neutral_plain', 'C15_update_idempotent', 'C15_unsafe_marks_neutral_plain', 'C15_unsafe_marks_anywhere_neutral']
 
 
 def tagk(n):
@@ -184,6 +184,18 @@ def run(rep, tier, rng):
                 'distinct = hash of the texts')
     base.proofs(rep, 'Properties.C15', THEOREMS, deps=['Proofs.FactsOk'])
     t2.run(rep, ['hpo', 'ck', 'prop'] if tier == 'quick' else ['hpo', 'ck', 'adopt', 'prop', 'eff'], tier)
+    # the loader model on documents whose only tags are safety marks and metadata (what C15_unsafe_marks_anywhere_neutral quantifies over)
+    from .. import loadcorr
+    sprof = gen.Profile(p_tag=0.4, tags=['!unsafe'], meta=0.15, underscore=True, p_intkey=0.15, max_depth=4)
+    litems = []
+    for _ in range(150 if tier == 'quick' else 2500):
+        r = loadcorr.run_case(gen.gen_doc(rng, sprof), safe=rng.random() < 0.6)
+        if r['ok']:
+            litems.append(r['term'])
+    bad, errors, wall, cmd = common.run_case_files('c15l', loadcorr.HEADER, litems, loadcorr.CHECK)
+    rep.checker_cmds.append(cmd)
+    rep.oblige(f'T3 correspondence Model.Loader.load_doc = awesomeyaml.yaml.parse on {len(litems)} documents tagged only with !unsafe / !metadata (all raw flags of every node)',
+               bool(litems) and not bad and not errors, (f'{len(bad)} disagreements' if bad else '') + (errors[0]['log'][-400:] if errors else ''))
     n = 300 if tier == 'quick' else 5000
     cases = base.merge_t3(rep, rng, ['del', 'all', 'prio'], n, 'laws', 1, 4,
                           extra_cases=[("{b: [1]}", "!unsafe {b: !weak [2, 3, 4]}"), ("{}", "!del {b: 2}"), ("!del {b: 2}", "!del {b: 2}")])
